@@ -48,10 +48,10 @@ static Shared make_shared() {
 }
 
 // ---------------------------------------------------------------------------------------------- operations
-constexpr unsigned kOps = 18;
+constexpr unsigned kOps = 20;
 static const char* op_name(unsigned k) {
 	static const char* const n[kOps] = { "mp_mem", "mp_stream", "csv_mem", "csv_stream", "json_mem", "json_stream", "xml_mem", "xml_stream",
-		"conv_num", "conv_enum", "conv_chrono", "conv_utf", "validation", "shared_load", "mismatch", "json_pretty_utf16", "pair_map", "lib_enums" };
+		"conv_num", "conv_enum", "conv_chrono", "conv_utf", "validation", "shared_load", "mismatch", "json_pretty_utf16", "pair_map", "lib_enums", "conv_wide", "archive_wide" };
 	return n[k];
 }
 
@@ -155,6 +155,27 @@ static std::string run_op(unsigned kind, Rng& rng, const Shared& sh) {
 			+ "|" + Convert::ToString(static_cast<ArchiveType>(seed % 5));
 		r += guard([&] { return Convert::ToString(Convert::To<Convert::Utf::UtfType>(std::string("UTF-16LE"))); });
 		return r; });
+	case 18: return guard([&] {   // every conversion from / to the non-char string widths (seeded change S17: a static scratch buffer on that path)
+		using namespace std::chrono;
+		std::string r;
+		const std::string d = sh.dates[seed % 3];
+		const std::u16string d16 = Convert::To<std::u16string>(d); const std::u32string d32 = Convert::To<std::u32string>(d); const std::wstring dw = Convert::To<std::wstring>(d);
+		r += guard([&] { return Convert::ToString(Convert::To<system_clock::time_point>(d16)); });
+		r += "|" + guard([&] { return Convert::ToString(Convert::To<system_clock::time_point>(d32)); });
+		r += "|" + guard([&] { return Convert::ToString(Convert::To<system_clock::time_point>(dw)); });
+		r += "|" + guard([&] { return Convert::ToString(Convert::To<seconds>(Convert::To<std::u16string>(std::string("PT") + std::to_string(seed) + "M7S"))); });
+		const std::string num = std::to_string(static_cast<int>(seed) * 7919 - 3000000);
+		r += "|" + guard([&] { return std::to_string(Convert::To<int32_t>(Convert::To<std::u16string>(num))); });
+		r += "|" + guard([&] { return std::to_string(Convert::To<int64_t>(Convert::To<std::u32string>(num))); });
+		r += "|" + guard([&] { return std::to_string(Convert::To<double>(Convert::To<std::wstring>(num + ".5"))); });
+		r += "|" + guard([&] { return std::to_string(Convert::To<bool>(std::u16string(seed % 2 ? u"true" : u"false"))); });
+		r += "|" + guard([&] { return Convert::ToString(Convert::To<Fruit>(Convert::To<std::u16string>(std::string("Banana")))); });
+		r += "|" + guard([&] { return Convert::To<std::string>(Convert::To<std::u16string>(static_cast<int>(seed) - 500)) + Convert::To<std::string>(Convert::To<std::wstring>(0.25 * seed))
+			+ Convert::To<std::string>(Convert::To<std::u32string>(system_clock::time_point(seconds(seed * 100003)))) + Convert::To<std::string>(Convert::To<std::u16string>(static_cast<Fruit>(seed % 3))); });
+		return r; });
+	case 19: return guard([&] {   // wide strings, enums and chrono values as members through the text archives (they go through the same conversions)
+		WideDoc w = make_wide_doc(seed);
+		return roundtrip_mem<JsonArchive>(w) + roundtrip_mem<XmlArchive>(w) + roundtrip_mem<MsgPackArchive>(w) + roundtrip_stream<JsonArchive>(w); });
 	}
 	return "?";
 }
